@@ -4,11 +4,33 @@ package asa
 
 // Contracts for the deductive checker in /verif (comment-only file).
 
+// What counts as acceptable output of a command is defined by isValidOutput
+// itself (tables of known warnings); it is used as a function of its arguments.
+//vc:spec func validOut(cmd string, out string) bool
+//vc:func isValidOutput
+//vc:  trusted
+//vc:  nopanic
+//vc:  modifies nothing
+//vc:  ensures result == validOut(cmd, out)
+
+// C09: all change commands accepted, then 'write memory' confirmed by [OK]
 //vc:func (*State).ApplyCommands
 //vc:  requires[C11] !isCompareRun
+//vc:  invariant[C09] 1 "for _, chg := range s.Changes" accepted == old(accepted) + 2 + rangeindex && -1 <= rangeindex && rangeindex < len(s.Changes) && len(s.Changes) == old(len(s.Changes))
+//vc:  assert[C09] at "write memory" @saveAfterAllAccepted accepted == old(accepted) + len(s.Changes) + 2
+//vc:  set changesConfirmed = result == nil && accepted == old(accepted) + len(s.Changes) + 2 && lastCmd == "write memory" && strings.Contains(lastOutput, "[OK]")
+//vc:  ensures[C09] @nilOnlyIfSavedOK result == nil ==> changesConfirmed
+
+// one reply is read and checked: echo stripped, remainder empty or acceptable
+//vc:func (*State).cmd$1
+//vc:  ensures[C09] @replyCheckedValid lastRemainder == "" || validOut(ci, lastRemainder)
+//vc:  ensures[C09] pendingReplies == old(pendingReplies) - 1
 
 //vc:func (*State).cmd
 //vc:  requires[C11] !isCompareRun
+//vc:  set accepted = accepted + 1
+//vc:  ensures[C09] @everyReplyConsumed pendingReplies == old(pendingReplies)
+//vc:  ensures[C09] accepted == old(accepted) + 1
 
 //vc:func (*State).checkDeviceName
 //vc:  set nameChecked = true
@@ -20,3 +42,4 @@ package asa
 //vc:  requires[C06] !nameChecked
 //vc:  ensures[C06] @hostnameVerified err == nil ==> nameChecked && checkedName == path.Base(spocFile)
 //vc:  ensures[C06] @missingBannerRecorded err == nil ==> (markerMissing ==> len(s.State.errUnmanaged) > 0)
+//vc:  ensures[C09] @unmanagedErrorNotNil err == nil && isnil(old(s.State.errUnmanaged)) && !isnil(s.State.errUnmanaged) ==> len(s.State.errUnmanaged) > 0 && s.State.errUnmanaged[0] != nil
